@@ -53,6 +53,13 @@ PROPS = {
         "trivial_tags": [],
         "level_text": "wip", "level_note": "wip",
     },
+    "C03": {
+        "theorems": [],
+        "suites": [{"name": "respflow", "quick": 1500, "thorough": 40000}],
+        "required_tags": ["respflow:success", "respflow:error", "respflow:bare-http", "respflow:error-trailers-only"],
+        "trivial_tags": [],
+        "level_text": "wip", "level_note": "wip",
+    },
 }
 
 NOT_APPLICABLE = {}
